@@ -182,20 +182,37 @@ def run(ctx, pid='C17'):
     if ctx.cov['functions_without_paths']: ctx.note_inconclusive('no path explored for: %s' % ctx.cov['functions_without_paths'][:5])
 
 
-def judge(ctx, s, e):
-    """native outcome against the reference"""
-    nat = s['nat']; bad = []
+def differences(nat, e):
+    bad = []
     if cc.norm_native(nat.get('ret')) != cc.norm_native(e['ret']): bad.append('returns %s, the reference gives %s' % (json.dumps(nat.get('ret'))[:200], json.dumps(e['ret'])[:200]))
     if not nat.get('err_cleared'): bad.append('the error slot is not cleared by last_error_message')
     if (nat.get('err') is not None) != bool(e['err']): bad.append('error recorded: %s, the reference: %s' % (nat.get('err') is not None, e['err']))
     if cc.norm_native(nat.get('pool')) != cc.norm_native(e['pool']): bad.append('handles afterwards %s, the reference gives %s' % (json.dumps(cc.norm_native(nat.get('pool')))[:300], json.dumps(cc.norm_native(e['pool']))[:300]))
     if e.get('outp') != 'absent' and cc.norm_native(nat.get('outp', 'absent')) != cc.norm_native(e['outp']): bad.append('borrowed entry %s, the reference gives %s' % (json.dumps(nat.get('outp'))[:200], json.dumps(e['outp'])[:200]))
+    return bad
+
+
+def judge(ctx, s, e):
+    """native outcome against the reference"""
+    bad = differences(s['nat'], e)
     if bad:
-        ctx.report('capi.sem:%s:%s' % (s['fn'], bad[0].split(',')[0].split(' ')[0]), '%s(%s) on %s: %s' % (s['fn'], json.dumps(s['args'])[:200], json.dumps(s['pool_pre'])[:200], '; '.join(bad)), case=s['native_case'])
+        ctx.report('capi.sem:%s:%s' % (s['fn'], bad[0].split(',')[0].split(' ')[0]), '%s(%s) on %s: %s' % (s['fn'], json.dumps(s['args'])[:200], json.dumps(s['pool_pre'])[:200], '; '.join(bad)),
+                   case=dict(s['native_case'], _expect=e))
 
 
 def replay(ctx, path):
-    case = json.load(open(path))['case']
+    """exit 1 iff the recorded violation reproduces on the current tree: the call aborts, differs from the recorded reference
+    answer, (C18) is reported by the sanitizers or swallows a null pointer without recording an error"""
+    obj = json.load(open(path)); case = obj['case']; key = obj.get('key', '')
     r = native.run_cases(native.build(), [case])[0]
     print(json.dumps(r)[:600])
-    return 1 if ('panic' in r or 'hang' in r or 'abort' in r) else 0
+    if 'panic' in r or 'hang' in r or 'abort' in r: return 1
+    if key.startswith(('capi.mem', 'capi.asan')):
+        v, tail = native.run_asan(native.build_asan(), [case]); print('sanitizer:', v)
+        return 1 if v is not None else 0
+    if key.startswith('capi.null'): return 1 if r['ok'][0].get('err') is None else 0
+    e = case.get('_expect')
+    if e is not None:
+        bad = differences(r['ok'][0], e); print('; '.join(bad)[:600])
+        return 1 if bad else 0
+    return 0
